@@ -174,9 +174,13 @@ Section ParseProofs.
   Lemma sim_set st f k v : sim st f -> sim (set k v st) (upd k v f).
   Proof. intros H k'. rewrite get_set. unfold upd. destruct (str_eqb k' k); [reflexivity|apply H]. Qed.
 
-  (* a directive that can be given a value by a string *)
-  Definition settable (name : str) : bool :=
-    match lookup_type name types with None | Some TNoValue => false | _ => true end.
+  Notation settable := (settable types).
+
+  Lemma dvalue_unsettable relaxed name text : settable name = false -> dvalue relaxed name text = None.
+  Proof.
+    unfold M_Directives.settable, doc_value.
+    destruct (lookup_type name types) as [[| | | |args amap| | | |]|]; try discriminate; reflexivity.
+  Qed.
 
   Lemma pvalue_settable relaxed name text : settable name = true ->
     match pvalue relaxed name text with
@@ -186,13 +190,15 @@ Section ParseProofs.
   Proof.
     intros Hs. pose proof (parse_value_ok_or_error relaxed name text) as H.
     destruct (pvalue relaxed name text) as [v|e w].
-    - destruct H as [H|(_ & _ & [H|H])]; [exact H| |]; unfold settable in Hs; rewrite H in Hs; discriminate.
+    - destruct H as [H|(_ & _ & [H|H])]; [exact H| |]; unfold M_Directives.settable in Hs; rewrite H in Hs; discriminate.
     - apply H.
   Qed.
 
+  Variable strict : bool.
+
   Lemma expand_all_doc relaxed prefix text : forall ds found st f,
-    sim st f -> (forall d, In d ds -> settable d = true) ->
-    match expand_all types digit_val codec_class relaxed prefix text ds found st with
+    sim st f -> (strict = false -> forall d, In d ds -> settable d = true) ->
+    match expand_all types digit_val codec_class strict relaxed prefix text ds found st with
     | Ok (found', st') =>
         exists f', doc_assign_all types digit_val codec_class relaxed text (filter (starts_with prefix) ds) f = Some f'
                    /\ sim st' f'
@@ -203,12 +209,17 @@ Section ParseProofs.
     induction ds as [|d ds IH]; intros found st f Hsim Hset; simpl.
     - exists f. rewrite orb_false_r. auto.
     - destruct (starts_with prefix d) eqn:Ep.
-      + pose proof (pvalue_settable relaxed d text (Hset d (or_introl eq_refl))) as Hv.
-        simpl. destruct (pvalue relaxed d text) as [v|e w]; rewrite Hv; [|reflexivity].
-        specialize (IH true (set d v st) (upd d v f) (sim_set _ _ _ _ Hsim) (fun x Hx => Hset x (or_intror Hx))).
-        destruct (expand_all _ _ _ _ _ _ ds true (set d v st)) as [[found' st']|e w]; [|exact IH].
+      + simpl. destruct (settable d) eqn:Esd.
+        2:{ destruct strict eqn:Est; simpl.
+            - rewrite (dvalue_unsettable relaxed d text Esd). reflexivity.
+            - rewrite (Hset eq_refl d (or_introl eq_refl)) in Esd. discriminate. }
+        rewrite andb_false_r.
+        pose proof (pvalue_settable relaxed d text Esd) as Hv.
+        destruct (pvalue relaxed d text) as [v|e w]; rewrite Hv; [|reflexivity].
+        specialize (IH true (set d v st) (upd d v f) (sim_set _ _ _ _ Hsim) (fun E x Hx => Hset E x (or_intror Hx))).
+        destruct (expand_all _ _ _ _ _ _ _ ds true (set d v st)) as [[found' st']|e w]; [|exact IH].
         destruct IH as (f' & H1 & H2 & H3). exists f'. rewrite orb_true_r. auto.
-      + apply IH; [exact Hsim|]. intros x Hx. apply Hset. right. exact Hx.
+      + apply IH; [exact Hsim|]. intros E x Hx. apply (Hset E). right. exact Hx.
   Qed.
 
   Lemma mem_In name l : mem name l = true -> In name l.
@@ -217,11 +228,12 @@ Section ParseProofs.
     apply str_eqb_eq in E. subst. exact Hx.
   Qed.
 
-  Hypothesis all_settable : forall d, In d defaults -> settable d = true.
+  (* the code as it is (strict = false) needs: no directive of the defaults table is value-less *)
+  Hypothesis all_settable : strict = false -> forall d, In d defaults -> settable d = true.
 
   Lemma parse_item_doc relaxed ignore st f it :
     sim st f ->
-    match parse_item types defaults digit_val codec_class relaxed ignore st it with
+    match parse_item types defaults digit_val codec_class strict relaxed ignore st it with
     | Ok st' => exists f', doc_item types defaults digit_val codec_class relaxed ignore f it = Some f' /\ sim st' f'
     | Err _ _ => doc_item types defaults digit_val codec_class relaxed ignore f it = None
     end.
@@ -235,13 +247,18 @@ Section ParseProofs.
         destruct (get (strip n0) st) as [[| | | |l]|]; try reflexivity.
         * eexists. split; [reflexivity|]. apply sim_set, Hsim.
         * eexists. split; [reflexivity|]. apply sim_set, Hsim.
-      + pose proof (pvalue_settable relaxed (strip n0) (strip v0) (all_settable _ (mem_In _ _ Em))) as Hv.
+      + destruct (settable (strip n0)) eqn:Esd.
+        2:{ destruct strict eqn:Est; simpl.
+            - rewrite (dvalue_unsettable relaxed _ (strip v0) Esd). reflexivity.
+            - rewrite (all_settable eq_refl _ (mem_In _ _ Em)) in Esd. discriminate. }
+        rewrite andb_false_r.
+        pose proof (pvalue_settable relaxed (strip n0) (strip v0) Esd) as Hv.
         destruct (pvalue relaxed (strip n0) (strip v0)) as [v|e w]; rewrite Hv; [|reflexivity].
         eexists. split; [reflexivity|]. apply sim_set, Hsim.
     - unfold all_targets.
       destruct (ends_with [46; 97; 108; 108] (strip n0)).
       + pose proof (expand_all_doc relaxed (drop_last 3 (strip n0)) (strip v0) defaults false st f Hsim all_settable) as H.
-        destruct (expand_all _ _ _ _ _ _ defaults false st) as [[found st']|e w].
+        destruct (expand_all _ _ _ _ _ _ _ defaults false st) as [[found st']|e w].
         * destruct H as (f' & H1 & H2 & H3). simpl in H3.
           destruct (filter (starts_with (drop_last 3 (strip n0))) defaults) as [|t0 ts] eqn:Ef.
           -- subst found. simpl in H1. inversion H1; subst f'. simpl.
@@ -253,7 +270,7 @@ Section ParseProofs.
 
   Lemma parse_items_doc relaxed ignore : forall items st f,
     sim st f ->
-    match parse_items types defaults digit_val codec_class relaxed ignore st items with
+    match parse_items types defaults digit_val codec_class strict relaxed ignore st items with
     | Ok st' => exists f', doc_items types defaults digit_val codec_class relaxed ignore f items = Some f' /\ sim st' f'
     | Err _ _ => doc_items types defaults digit_val codec_class relaxed ignore f items = None
     end.
@@ -261,7 +278,7 @@ Section ParseProofs.
     induction items as [|it r IH]; intros st f Hsim; simpl.
     - exists f. auto.
     - pose proof (parse_item_doc relaxed ignore st f it Hsim) as H.
-      destruct (parse_item _ _ _ _ _ _ st it) as [st'|e w].
+      destruct (parse_item _ _ _ _ _ _ _ st it) as [st'|e w].
       + destruct H as (f' & H1 & H2). rewrite H1. apply IH, H2.
       + rewrite H. reflexivity.
   Qed.
@@ -270,7 +287,7 @@ Section ParseProofs.
      a dict that is, key by key, the documented map of the text -- or an error exactly when the
      documentation gives the text no meaning.  Never a silently different value. *)
   Theorem parse_list_ok_or_error relaxed ignore cur s :
-    match parse_directive_list types defaults digit_val codec_class relaxed ignore cur s with
+    match parse_directive_list types defaults digit_val codec_class strict relaxed ignore cur s with
     | Ok d => exists f, doc_list types defaults digit_val codec_class relaxed ignore (fun k => get k cur) s = Some f
                         /\ forall k, get k d = f k
     | Err _ _ => doc_list types defaults digit_val codec_class relaxed ignore (fun k => get k cur) s = None
@@ -605,7 +622,7 @@ Section ScopeProofs.
 
   Ltac node_case K d cur sets ch Ss Hm Hforest :=
     let He := fresh "He" in
-    pose proof (enter_body scopes immediate non_inherited d cur K sets ltac:(discriminate) Ss Hm) as He;
+    pose proof (enter_body d cur K sets ltac:(discriminate) Ss Hm) as He;
     destruct (M_Directives.enter scopes immediate non_inherited cur K sets) as [[[new newc]|] rej]; simpl in He;
     [ specialize (Hforest newc);
       destruct (M_Directives.visit_list scopes immediate non_inherited newc ch) as [[l st'] e]; destruct Hforest as [_ Hf];
@@ -648,3 +665,202 @@ Section ScopeProofs.
     rewrite Forall_forall in Hs. apply Hs, Ht.
   Qed.
 End ScopeProofs.
+
+(* ====================== module level, no-leak, scope violations ====================== *)
+Section ScopeProofs2.
+  Variable scopes : list (str * list str).
+  Variable immediate : list str.
+  Variable non_inherited : list str.
+
+  Definition w_module : str := [109; 111; 100; 117; 108; 101].
+
+  Lemma header_split_spec header :
+    fst (header_split scopes header) = filter (fun kv => scope_ok scopes (fst kv) w_module) header /\
+    forall n v, In (n, v) header -> scope_ok scopes n w_module = false ->
+                In (n, w_module) (snd (header_split scopes header)).
+  Proof.
+    induction header as [|[n v] header [IH1 IH2]]; simpl; [split; [reflexivity|intros ? ? []]|].
+    destruct (header_split scopes header) as [ok rej]. simpl in *.
+    fold w_module. destruct (scope_ok scopes n w_module) eqn:E; simpl.
+    - split; [f_equal; exact IH1|]. intros n' v' [H|H] Hs; [inversion H; subst; congruence|eauto].
+    - split; [exact IH1|]. intros n' v' [H|H] Hs; [inversion H; subst; left; reflexivity|right; eauto].
+  Qed.
+
+  (* header comment, else command line / cythonize options, else default *)
+  Theorem module_precedence defaults options header d :
+    get d (fst (module_dict scopes defaults options header)) = module_value scopes defaults options header d.
+  Proof.
+    unfold module_dict, module_value, header_setting.
+    pose proof (header_split_spec header) as [H _].
+    destruct (header_split scopes header) as [ok rej]. simpl in *. subst ok.
+    rewrite !get_update, <- filter_rev.
+    rewrite (get_filter_key (fun x => scope_ok scopes x w_module)). fold w_module.
+    destruct (scope_ok scopes d w_module); reflexivity.
+  Qed.
+
+  (* module + forest: the value in effect for the code at a path *)
+  Theorem effective_in_module defaults options header body d :
+    mem d non_inherited = false -> Forall scalar_tree body ->
+    let '(md, l, st, _) := visit_module scopes immediate non_inherited defaults options header body in
+    st = md /\
+    forall p a, lookup_path l p = Some a ->
+      Some (get d (body_dict a)) =
+      spec_at scopes immediate d (module_value scopes defaults options header d) body p.
+  Proof.
+    intros Hm Hs. unfold visit_module.
+    pose proof (module_precedence defaults options header d) as Hmod.
+    destruct (module_dict scopes defaults options header) as [md rej]. simpl in Hmod.
+    pose proof (effective_directive scopes immediate non_inherited d md body Hm Hs) as H.
+    destruct (visit_list scopes immediate non_inherited md body) as [[l st] e].
+    rewrite <- Hmod. exact H.
+  Qed.
+
+  (* settings never leak to siblings or outward: two programs that agree on the nodes ON the
+     path (kinds and settings) give the same value there, whatever else they contain *)
+  Fixpoint same_on_path (f1 f2 : list tree) (p : list nat) : Prop :=
+    match p with
+    | [] => True
+    | i :: q => match nth_error f1 i, nth_error f2 i with
+                | Some (Node k1 s1 c1), Some (Node k2 s2 c2) =>
+                    k1 = k2 /\ s1 = s2 /\ match q with [] => True | _ => same_on_path c1 c2 q end
+                | _, _ => False
+                end
+    end.
+
+  Lemma spec_at_same d : forall p f1 f2 outer, same_on_path f1 f2 p ->
+    spec_at scopes immediate d outer f1 p = spec_at scopes immediate d outer f2 p.
+  Proof.
+    induction p as [|i q IH]; intros f1 f2 outer H; [reflexivity|].
+    simpl in *. destruct (nth_error f1 i) as [[k1 s1 c1]|], (nth_error f2 i) as [[k2 s2 c2]|]; try contradiction.
+    destruct H as (-> & -> & H). destruct q; [reflexivity|]. apply IH, H.
+  Qed.
+
+  Theorem no_leak d cur f1 f2 p a1 a2 :
+    mem d non_inherited = false -> Forall scalar_tree f1 -> Forall scalar_tree f2 ->
+    same_on_path f1 f2 p ->
+    lookup_path (fst (fst (visit_list scopes immediate non_inherited cur f1))) p = Some a1 ->
+    lookup_path (fst (fst (visit_list scopes immediate non_inherited cur f2))) p = Some a2 ->
+    get d (body_dict a1) = get d (body_dict a2).
+  Proof.
+    intros Hm S1 S2 Hsame L1 L2.
+    pose proof (effective_directive scopes immediate non_inherited d cur f1 Hm S1) as H1.
+    pose proof (effective_directive scopes immediate non_inherited d cur f2 Hm S2) as H2.
+    destruct (visit_list scopes immediate non_inherited cur f1) as [[l1 st1] e1].
+    destruct (visit_list scopes immediate non_inherited cur f2) as [[l2 st2] e2].
+    simpl in *. destruct H1 as [_ H1], H2 as [_ H2].
+    specialize (H1 p a1 L1). specialize (H2 p a2 L2).
+    rewrite (spec_at_same d p f1 f2 _ Hsame) in H1. congruence.
+  Qed.
+
+  (* ----- a setting that is illegal in its scope is reported (and, by explicit_for_contents /
+     header_setting in the theorems above, never applied) ----- *)
+  Lemma extract_loop_rej scope n : forall rs curopt acc rej,
+    (forall x, In x rej -> In x (snd (extract_loop scopes scope rs curopt acc rej))) /\
+    ((exists v, In (n, v) rs) -> scope_ok scopes n scope = false ->
+     In (n, scope) (snd (extract_loop scopes scope rs curopt acc rej))).
+  Proof.
+    induction rs as [|[m v] rs IH]; intros curopt acc rej; simpl.
+    - split; [auto|]. intros [v []].
+    - destruct (scope_ok scopes m scope) eqn:E.
+      + assert (G : forall co ac, (forall x, In x rej -> In x (snd (extract_loop scopes scope rs co ac rej))) /\
+                  ((exists v0, In (n, v0) ((m, v) :: rs)) -> scope_ok scopes n scope = false ->
+                   In (n, scope) (snd (extract_loop scopes scope rs co ac rej)))).
+        { intros co ac. destruct (IH co ac rej) as [I1 I2]. split; [exact I1|].
+          intros [v0 [H|H]] Hs; [inversion H; subst; congruence|apply I2; eauto]. }
+        destruct (get m curopt) as [v0|]; [destruct (value_eqb v0 v)|]; apply G.
+      + destruct (IH curopt acc (rej ++ [(m, scope)])) as [I1 I2]. split.
+        * intros x Hx. apply I1, in_or_app. left. exact Hx.
+        * intros [v0 [H|H]] Hs.
+          -- inversion H; subst. apply I1, in_or_app. right. left. reflexivity.
+          -- apply I2; eauto.
+  Qed.
+
+  Lemma with_dict_rej n : forall sets dd rej,
+    (forall x, In x rej -> In x (snd (with_dict scopes sets dd rej))) /\
+    ((exists v, In (n, v) sets) -> scope_ok scopes n (scope_name KWith) = false ->
+     In (n, scope_name KWith) (snd (with_dict scopes sets dd rej))).
+  Proof.
+    induction sets as [|[m v] sets IH]; intros dd rej; simpl.
+    - split; [auto|]. intros [v []].
+    - change [119; 105; 116; 104; 32; 115; 116; 97; 116; 101; 109; 101; 110; 116] with (scope_name KWith).
+      destruct (scope_ok scopes m (scope_name KWith)) eqn:E.
+      + destruct (IH (set m v dd) rej) as [I1 I2]. split; [exact I1|].
+        intros [v0 [H|H]] Hs; [inversion H; subst; congruence|apply I2; eauto].
+      + destruct (IH dd (rej ++ [(m, scope_name KWith)])) as [I1 I2]. split.
+        * intros x Hx. apply I1, in_or_app. left. exact Hx.
+        * intros [v0 [H|H]] Hs.
+          -- inversion H; subst. apply I1, in_or_app. right. left. reflexivity.
+          -- apply I2; eauto.
+  Qed.
+
+  Ltac dec_case sets cur n v Hin Hs :=
+    unfold extract_directives;
+    match goal with |- context [extract_loop scopes ?sc (rev sets) cur [] []] =>
+      let H := fresh "H" in
+      pose proof (proj2 (extract_loop_rej sc n (rev sets) cur [] [])
+                    (ex_intro _ v (proj1 (in_rev sets (n, v)) Hin)) Hs) as H;
+      destruct (extract_loop scopes sc (rev sets) cur [] []) as [acc rej];
+      simpl in H;
+      match goal with |- context [fold_left merge_one acc []] =>
+        destruct (fold_left merge_one acc []); [exact H|] end;
+      match goal with |- context [dict_eqb ?a ?b] => destruct (dict_eqb a b); exact H end
+    end.
+
+  Theorem scope_violation_rejected cur k sets ch n v :
+    k <> KProbe -> In (n, v) sets -> scope_ok scopes n (scope_name k) = false ->
+    In (n, scope_name k) (snd (visit scopes immediate non_inherited cur (Node k sets ch))).
+  Proof.
+    intros Hk Hin Hs.
+    assert (He : In (n, scope_name k) (snd (enter scopes immediate non_inherited cur k sets))).
+    { unfold enter. destruct k; try contradiction.
+      1: dec_case sets cur n v Hin Hs.
+      1: dec_case sets cur n v Hin Hs.
+      1: dec_case sets cur n v Hin Hs.
+      pose proof (proj2 (with_dict_rej n sets [] []) (ex_intro _ v Hin) Hs) as H.
+      destruct (with_dict scopes sets [] []) as [dd rej]. simpl in H.
+      destruct dd; [exact H|]. match goal with |- context [dict_eqb ?a ?b] => destruct (dict_eqb a b); exact H end. }
+    rewrite visit_unfold.
+    destruct (enter scopes immediate non_inherited cur k sets) as [[[new newc]|] rej]; simpl in He;
+      destruct k; try contradiction;
+      match goal with |- context [visit_list scopes immediate non_inherited ?c ch] =>
+        destruct (visit_list scopes immediate non_inherited c ch) as [[l st] e] end;
+      simpl; apply in_or_app; left; exact He.
+  Qed.
+
+  Theorem header_scope_violation_rejected defaults options header n v :
+    In (n, v) header -> scope_ok scopes n w_module = false ->
+    In (n, w_module) (snd (module_dict scopes defaults options header)).
+  Proof.
+    intros Hin Hs. unfold module_dict.
+    pose proof (proj2 (header_split_spec header) n v Hin Hs) as H.
+    destruct (header_split scopes header) as [ok rej]. exact H.
+  Qed.
+
+  (* executable check over a concrete scopes table: for every entry (d, legal) and every scope
+     kind, a node of that kind setting d is accepted iff its scope name is in legal; when it is
+     rejected the value seen by the enclosed code is the surrounding one *)
+  Definition one_scope_check (defaults : dict) (d : str) (legal : list str) (k : kind) : bool :=
+    let v := VStr [42] in
+    let '(a, st, rej) := visit scopes immediate non_inherited defaults (Node k [(d, v)] [Node KProbe [] []]) in
+    let inside := match achildren a with p :: _ => get d (body_dict p) | [] => None end in
+    if mem (scope_name k) legal
+    then match rej with [] => true | _ => false end
+    else match rej with [(n, s)] => str_eqb n d && str_eqb s (scope_name k) | _ => false end
+         && match inside, get d defaults with
+            | Some x, Some y => value_eqb x y | None, None => true | _, _ => false end.
+
+  Definition header_scope_check (defaults : dict) (d : str) (legal : list str) : bool :=
+    let v := VStr [42] in
+    let '(md, rej) := module_dict scopes defaults [] [(d, v)] in
+    if mem w_module legal
+    then match rej with [] => true | _ => false end
+    else match rej with [(n, s)] => str_eqb n d && str_eqb s w_module | _ => false end
+         && match get d md, get d defaults with
+            | Some x, Some y => value_eqb x y | None, None => true | _, _ => false end.
+
+  Definition scope_table_check (defaults : dict) : bool :=
+    forallb (fun e => match snd e with [] => false | _ => true end &&
+                      header_scope_check defaults (fst e) (snd e) &&
+                      forallb (one_scope_check defaults (fst e) (snd e)) [KFunc; KClass; KCClass; KWith])
+            scopes.
+End ScopeProofs2.
